@@ -381,6 +381,12 @@ def c08(ctx):
     ctx.notes["generator"] = {"instances": n_eval, "skipped_after_normalisation": skipped, "per_schema": per_schema}
     for name in list(per_schema)[:8]:
         ctx.sample({"schema": name, "instances": per_schema[name]})
+    # documented forms reached by IN-PLACE edits of a tree whose nodes the (long-lived) rule objects
+    # were already asked about: accepted / rejected and rewritten as a fresh rule object does
+    from .props_rules import inplace_family
+    iprobs, _walks = inplace_family(ctx, "C08")
+    for p_ in iprobs[:5]:
+        bad.append(dict(p_, schema="form reached by in-place edits (long-lived rule objects)"))
     finish(ctx, [("schema", bad)], [], "each rule performs its documented transformation")
 
 
